@@ -23,6 +23,10 @@ SPEC = {
              "/ repeated handshakes, stray events on closed or unknown ids, id reuse, lifetimes 1 s / 60 s / default 5 min, ticks "
              "0.3 / 0.45 / 1.3 lifetimes so that the boundary instant is never observed); real-clock lifetimes (300 ms, sleeps 110 / "
              "400 ms, rerun when a sleep overshoots by > 25 ms) on the backends that cannot be fast-forwarded; boundary list; "
+             "split lookups: q:<node>.<client> starts a real FindClientNode on a store handle whose every call waits for a permit "
+             "and lets only its first round trip (index read) run, r:… lets the rest run and takes the answer - any events in "
+             "between (exhaustive words over {q,r on both nodes, same-node / cross-node reconnect, close, sweep, heartbeat, expiry}, "
+             "<= 4 / 5 steps, only words in which a lookup spans an event; random histories; boundary list); "
              "ending-path words (client registered on node 0; alphabet same-node / cross-node reconnect, c e d s k x, old heartbeat; "
              "<= 3 / 4 steps, redis and memory); keep-alive words (heartbeats of both connections, reconnect, late close, ticks of 0.45 / 0.7 lifetimes, <= 3 / 5 steps). "
              "sched (holds-only exploration below the event granularity): the last two events (close||handshake, heartbeat||handshake, "
@@ -61,6 +65,9 @@ SPEC = {
         "of a node that was shut down is not observed (its CrossNodePool is closed); a crashed node's records expire by TTL only",
         "the Disconnect command and the sweep act only on a connection the registry holds; whether the call closed the connection "
         "is part of the observation (connection table before/after) and drives the reference",
+        "lookups are read-only in the model (lookup_is_read_only; source tie skel_lookup_reads + flow_FindClientNode); the one write "
+        "the code can make inside a lookup - GetConnectionState deleting the record it found past its ExpiresAt - concerns the key of "
+        "that connection id only and is subsumed by the store's own deadline (not modelled)",
         "limits not reached (MaxConnections 10000, MaxControlConnections 5000: the registry evicts the oldest control "
         "connection at the limit), no storage faults, heartbeat-timeout cleanup = a close event",
         "SendCommandToClient prefers the node's own registry: a node that still holds an (unnoticed dead) connection of the "
